@@ -143,7 +143,8 @@ func TestC10(t *testing.T) {
 		for _, N := range []int{1, 2} {
 			// small storage tables every second time: the warm keys then live in sealed, older tables
 			T := []int{0, 512}[(r+N)%2]
-			c, err := cluster.Start(cluster.Options{Replicas: 1, Partitions: 7, Manual: true, TableSize: T,
+			// two members hold every key twice: a read merges the owner's copy with the backup's
+			c, err := cluster.Start(cluster.Options{Replicas: N, Partitions: 7, Manual: true, TableSize: T,
 				DMaps: func(d *config.DMaps) {
 					d.NumEvictionWorkers = 4
 					d.Custom = map[string]config.DMap{"c10idle": {MaxIdleDuration: window}}
@@ -151,7 +152,7 @@ func TestC10(t *testing.T) {
 			if err != nil {
 				t.Fatal(err)
 			}
-			label := fmt.Sprintf("N=%d T=%d idle window=%v", N, T, window)
+			label := fmt.Sprintf("N=%d R=%d T=%d idle window=%v", N, N, T, window)
 			sum.Configs = append(sum.Configs, label)
 			seq++
 			w.Emit(trace.Ev{"t": "reset", "seq": seq, "cfg": label, "maxkeys": 0, "maxinuse": 0, "entry": entry, "window": int(window.Milliseconds())})
